@@ -583,8 +583,8 @@ def run_task(task):
         except Exception: bpoly = None
         if bpoly is not None and len(bpoly) < 3: bpoly = None
         aids = {'qtree': geo.column_quadtree(), 'bpoly': bpoly, 'brect': geo.bounds, 'blockmap': bmap}
-        point_contracts(geo, O, R, rs, npoints, aids)
-        line_contracts(geo, O, R, rs, nlines, ndense)
+        if npoints > 0: point_contracts(geo, O, R, rs, npoints, aids)
+        if nlines > 0: line_contracts(geo, O, R, rs, nlines, ndense)
         sizes = np.sort(O.maxside)
         sample = {'geometry': tag, 'chunk': chunk, 'columns': O.ncol, 'column_size_range': [float(sizes[0]), float(sizes[-1])],
                   'points': npoints, 'lines': nlines, 'skipped': R.skipped, 'seconds': round(time.time() - t0, 2)}
